@@ -264,6 +264,46 @@ def run_cross_thread(ctx, exe):
                       rng.choice([8, 24, 100, 1792, 2600, 8128, 9000]), rng.randrange(2)])
     ctx.rules.append("cross-thread: thread A allocates N (aligned) blocks of every fitting class x alignment 128..4096, thread B frees every other one (and exits or stays), "
                      "A allocates again; shadow-map / msize / alignment / pattern oracle")
+    # every C entry point (calloc zero-fill, aligned_realloc, posix_memalign, msize, realloc preservation) against a shadow map
+    arng = ctx.rng
+    acases = []
+    SZ = [0, 1, 7, 8, 9, 16, 24, 48, 64, 65, 100, 128, 255, 256, 257, 1000, 1024, 1025, 1792, 2688, 4032, 4033, 5376, 8064, 8128, 8129, 10000, 20000, 65536, 100000, 1 << 20, (1 << 20) + 1, 3 << 20]
+    for _ in range(ctx.scale(300, 8000)):
+        ops, nsl = [], 0
+        for _ in range(arng.randint(3, 30)):
+            r_ = arng.random()
+            if r_ < 0.2 or nsl == 0:
+                ops += [1, arng.choice(SZ), 0]; nsl += 1
+            elif r_ < 0.32:
+                ops += [3, arng.choice(SZ[1:]), 1 << arng.randrange(3, 15)]; nsl += 1
+            elif r_ < 0.44:
+                nn = arng.choice([1, 1, 2, 3, 16, 100]); ops += [5, nn, arng.choice(SZ[:26])]; nsl += 1
+            elif r_ < 0.52:
+                ops += [7, arng.randrange(3, 15), arng.choice(SZ[1:])]; nsl += 1
+            elif r_ < 0.68:
+                ops += [2, arng.randrange(nsl), 0]
+            elif r_ < 0.84:
+                ops += [4, arng.randrange(nsl), arng.choice(SZ[1:])]
+            elif r_ < 0.96:
+                ops += [6, arng.randrange(nsl), (arng.randrange(3, 13) << 32) | arng.choice(SZ[1:27])]
+            else:
+                ops += [8, arng.randrange(nsl), 0]
+        acases.append(ops)
+    ctx.rules.append("malloc-api (oracle only): random sequences over malloc / calloc / realloc / aligned_malloc / aligned_realloc / posix_memalign / free / msize with sizes at the class and route "
+                     "boundaries and alignments 8..16384: no overlap with live blocks, alignment, msize >= size, calloc zero-filled, realloc keeps min(old,new) bytes, live blocks keep their pattern")
+
+    def api_oracle(c, toks):
+        if not toks or toks[0].startswith("CRASH") or toks[-1] == "HANG":
+            return ("malloc-api-crash", "malloc-api sequence %s: crash/hang" % c[:60])
+        d = {toks[i]: int(toks[i + 1]) for i in range(0, len(toks) - 1, 2)}
+        msg = {"OVERLAP": "a new block overlaps a live block", "MISALIGNED": "a block is not aligned as requested", "MSIZE": "scalable_msize is below the requested size", "NONZERO": "calloc memory is not zero",
+               "LOSTDATA": "realloc lost part of the first min(old,new) bytes", "CORRUPT": "a live block was written by the allocator", "BADRET": "posix_memalign failed for a valid alignment"}
+        for k, m_ in msg.items():
+            if d.get(k):
+                names = {1: "malloc", 2: "free#", 3: "aligned_malloc", 4: "realloc#", 5: "calloc", 6: "aligned_realloc#", 7: "posix_memalign 2^", 8: "msize#"}
+                return ("malloc-api-" + k.lower(), "%s: %s" % ("; ".join("%s(%d,%d)" % (names.get(c[i], "?"), c[i + 1], c[i + 2] if c[i] != 6 else c[i + 2] & 0xffffffff) for i in range(0, len(c), 3))[:900], m_))
+        return None
+    oracle_tie(ctx, "malloc-api", exe, ["api"], acases, api_oracle, bucket=lambda c: "api ops=%d" % (len(c) // 30 * 10), timeout=900)
     oracle_tie(ctx, "malloc-xfree", exe, ["xfree"], cases, xfree_oracle, describe=xdesc, bucket=lambda c: "xfree align=%d" % c[1], timeout=900)
     bad = 0
     nmt = ctx.scale(6, 80)
@@ -279,6 +319,13 @@ def run_cross_thread(ctx, exe):
 
 
 def replay(ctx, rep):
+    if rep.get("tie") == "malloc-api":
+        rc, lines, err = ctx.run_driver(build(ctx), ["api"], [rep["case"]], timeout=60)
+        print(lines)
+        toks = (lines or ["CRASH"])[0].split()
+        if toks[0] == "CRASH" or any(x != "0" for x in toks[1::2]):
+            ctx.add(Finding("violation", "malloc-api", "replay: %s" % " ".join(toks), rep))
+        return
     if rep.get("tie") == "malloc-xfree":
         oracle_tie(ctx, "malloc-xfree", build(ctx), ["xfree"], [rep["case"]], xfree_oracle, describe=xdesc)
         return
